@@ -156,7 +156,7 @@ func vfC13Run(cs vfC13Case, res *vfC13Res) string {
 		}
 		clientStream := append(append([]byte(nil), actLine...), x.ActTail...)
 		serverStream := append(append([]byte(nil), cfgLine...), x.CfgTail...)
-		sendsCfg := x.Outcome == "confirm" || x.Outcome == "bad_cfg"
+		sendsCfg := x.Outcome == "confirm" || x.Outcome == "bad_cfg" || x.Outcome == "gave_up"
 		for _, c := range x.ActCuts {
 			if c > 0 && c < len(actLine) {
 				res.straddle = true
@@ -200,7 +200,7 @@ func vfC13Run(cs vfC13Case, res *vfC13Res) string {
 		}()
 		wg.Wait()
 		switch x.Outcome {
-		case "confirm":
+		case "confirm", "gave_up":
 			segSrv = append(segSrv, seg{lines: []string{"#ACT:"}}, seg{lit: x.ActTail})
 			segCli = append(segCli, seg{lines: []string{"#CFG:"}}, seg{lit: x.CfgTail})
 			relayLinesSrv, relayLinesCli = 1, 1
@@ -223,6 +223,9 @@ func vfC13Run(cs vfC13Case, res *vfC13Res) string {
 			deadline := time.Now().Add(3 * time.Second)
 			for g.relay.relayStatus.Load() != kRelayStandBy && time.Now().Before(deadline) {
 				time.Sleep(100 * time.Microsecond)
+			}
+			if x.Outcome == "gave_up" && g.relay.relayStatus.Load() != kRelayStandBy {
+				return fmt.Sprintf("transfer %d: the relay did not return to standby after the client gave up right behind its action", xi)
 			}
 			continue
 		}
@@ -500,7 +503,29 @@ func vfGenC13(rt *rapid.T) vfC13Case {
 				x.CfgTail = append(x.CfgTail, bb.Bytes()...)
 			}
 		}
+		if rapid.IntRange(0, 5).Draw(rt, "gaveup") == 0 {
+			// the client gives up right behind its action (a stop while the server is slow): its fail line is part of what the relay
+			// holds, and what the server sends behind its configuration - in the same read or later - must still all arrive, in order
+			x.Outcome = "gave_up"
+			x.ActTail = append(vfEncodeLine("fail", []byte("Stopped"), "\n"), x.ActTail...)
+			if len(x.CfgTail) == 0 || rapid.Bool().Draw(rt, "gaveup_num") {
+				x.CfgTail = append([]byte("#NUM:1\n"), x.CfgTail...)
+			}
+		}
 		x.ActCuts = vfGenCutsIn(rt, "actcut", 160+len(x.ActTail))
+		if x.Outcome == "gave_up" {
+			// the fail line arrives whole, as every end marker does here (a sender writes it in one piece after a quiet period, and
+			// the relay looks for it read by read - see DESIGN §8.3)
+			al := len(vfEncodeLine("ACT", []byte(vfActJSON), "\n"))
+			fl := len(vfEncodeLine("fail", []byte("Stopped"), "\n"))
+			var keep []int
+			for _, c := range x.ActCuts {
+				if c <= al || c >= al+fl {
+					keep = append(keep, c)
+				}
+			}
+			x.ActCuts = keep
+		}
 		x.CfgCuts = vfGenCutsIn(rt, "cfgcut", 100+len(x.CfgTail))
 		// now and then the held traffic arrives in very many small reads (a fast typist's paste through a slow terminal, a chatty
 		// job): more pieces than any fixed-size queue of "a thousand should do" holds
@@ -519,6 +544,9 @@ func vfGenC13(rt *rapid.T) vfC13Case {
 			}
 		}
 		x.CfgEarly = rapid.IntRange(0, 3).Draw(rt, "cfgearly") == 0
+		if x.Outcome == "gave_up" && rapid.IntRange(0, 2).Draw(rt, "gaveup_late") != 0 {
+			x.CfgLate, x.CfgEarly = true, false
+		}
 		x.XferC = vfGenChunksOf(rt, "xc", 4, 40)
 		x.XferS = vfGenChunksOf(rt, "xs", 4, 40)
 		x.End = rapid.SampledFrom([]string{"exit_c", "fail_c", "fail_s", "exit_s", "ctrlc"}).Draw(rt, "end")
